@@ -194,6 +194,8 @@ impl<'a, 'r, 'o, 'd, 'i, 'c> Subject<'a, 'r, 'o, 'd, 'i, 'c> {
     }
 
     pub fn parse_inline(&mut self, node: &'a AstNode<'a>) -> bool {
+        #[cfg(comrak_verif)]
+        crate::verif::step();
         let c = match self.peek_char() {
             None => return false,
             Some(ch) => *ch as char,
@@ -413,11 +415,15 @@ impl<'a, 'r, 'o, 'd, 'i, 'c> Subject<'a, 'r, 'o, 'd, 'i, 'c> {
         let mut candidate = self.last_delimiter;
         let mut closer: Option<&Delimiter> = None;
         while candidate.map_or(false, |c| c.position >= stack_bottom) {
+            #[cfg(comrak_verif)]
+            crate::verif::step();
             closer = candidate;
             candidate = candidate.unwrap().prev.get();
         }
 
         while let Some(c) = closer {
+            #[cfg(comrak_verif)]
+            crate::verif::step();
             if c.can_close {
                 // Each time through the outer `closer` loop we reset the opener
                 // to the element below the closer, and search down the stack
@@ -450,6 +456,8 @@ impl<'a, 'r, 'o, 'd, 'i, 'c> Subject<'a, 'r, 'o, 'd, 'i, 'c> {
                 // failed to find, avoiding repeatedly rescanning the bottom of
                 // the stack, using the openers_bottom array.
                 while opener.map_or(false, |o| o.position >= openers_bottom[ix]) {
+                    #[cfg(comrak_verif)]
+                    crate::verif::step();
                     let o = opener.unwrap();
                     if o.can_open && o.delim_char == c.delim_char {
                         // This is a bit convoluted; see points 9 and 10 here:
@@ -578,6 +586,8 @@ impl<'a, 'r, 'o, 'd, 'i, 'c> Subject<'a, 'r, 'o, 'd, 'i, 'c> {
             .last_delimiter
             .map_or(false, |d| d.position >= stack_bottom)
         {
+            #[cfg(comrak_verif)]
+            crate::verif::step();
             self.remove_delimiter(self.last_delimiter.unwrap());
         }
     }
@@ -605,6 +615,8 @@ impl<'a, 'r, 'o, 'd, 'i, 'c> Subject<'a, 'r, 'o, 'd, 'i, 'c> {
 
     fn find_special_char(&self) -> usize {
         for n in self.pos..self.input.len() {
+            #[cfg(comrak_verif)]
+            crate::verif::step();
             if self.special_chars[self.input[n] as usize] {
                 if self.input[n] == b'^' && self.within_brackets {
                     // NO OP
@@ -663,6 +675,8 @@ impl<'a, 'r, 'o, 'd, 'i, 'c> Subject<'a, 'r, 'o, 'd, 'i, 'c> {
     fn take_while(&mut self, c: u8) -> usize {
         let start_pos = self.pos;
         while self.peek_char() == Some(&c) {
+            #[cfg(comrak_verif)]
+            crate::verif::step();
             self.pos += 1;
         }
         self.pos - start_pos
@@ -672,6 +686,8 @@ impl<'a, 'r, 'o, 'd, 'i, 'c> Subject<'a, 'r, 'o, 'd, 'i, 'c> {
         let start_pos = self.pos;
         let mut count = 0;
         while count < limit && self.peek_char() == Some(&c) {
+            #[cfg(comrak_verif)]
+            crate::verif::step();
             self.pos += 1;
             count += 1;
         }
@@ -688,7 +704,11 @@ impl<'a, 'r, 'o, 'd, 'i, 'c> Subject<'a, 'r, 'o, 'd, 'i, 'c> {
         }
 
         loop {
+            #[cfg(comrak_verif)]
+            crate::verif::step();
             while self.peek_char().map_or(false, |&c| c != b'`') {
+                #[cfg(comrak_verif)]
+                crate::verif::step();
                 self.pos += 1;
             }
             if self.pos >= self.input.len() {
@@ -749,7 +769,11 @@ impl<'a, 'r, 'o, 'd, 'i, 'c> Subject<'a, 'r, 'o, 'd, 'i, 'c> {
         }
 
         loop {
+            #[cfg(comrak_verif)]
+            crate::verif::step();
             while self.peek_char().map_or(false, |&c| c != b'$') {
+                #[cfg(comrak_verif)]
+                crate::verif::step();
                 self.pos += 1;
             }
 
@@ -787,7 +811,11 @@ impl<'a, 'r, 'o, 'd, 'i, 'c> Subject<'a, 'r, 'o, 'd, 'i, 'c> {
         assert!(self.options.extension.math_code);
 
         loop {
+            #[cfg(comrak_verif)]
+            crate::verif::step();
             while self.peek_char().map_or(false, |&c| c != b'$') {
+                #[cfg(comrak_verif)]
+                crate::verif::step();
                 self.pos += 1;
             }
 
@@ -866,6 +894,8 @@ impl<'a, 'r, 'o, 'd, 'i, 'c> Subject<'a, 'r, 'o, 'd, 'i, 'c> {
     pub fn skip_spaces(&mut self) -> bool {
         let mut skipped = false;
         while self.peek_char().map_or(false, |&c| c == b' ' || c == b'\t') {
+            #[cfg(comrak_verif)]
+            crate::verif::step();
             self.pos += 1;
             skipped = true;
         }
@@ -910,6 +940,8 @@ impl<'a, 'r, 'o, 'd, 'i, 'c> Subject<'a, 'r, 'o, 'd, 'i, 'c> {
         }
 
         while self.options.parse.smart && self.peek_char().map_or(false, |&c| c == b'-') {
+            #[cfg(comrak_verif)]
+            crate::verif::step();
             self.pos += 1;
         }
 
@@ -962,6 +994,8 @@ impl<'a, 'r, 'o, 'd, 'i, 'c> Subject<'a, 'r, 'o, 'd, 'i, 'c> {
                 && (self.input[before_char_pos] >> 6 == 2
                     || self.skip_chars[self.input[before_char_pos] as usize])
             {
+                #[cfg(comrak_verif)]
+                crate::verif::step();
                 before_char_pos -= 1;
             }
             match unsafe { str::from_utf8_unchecked(&self.input[before_char_pos..self.pos]) }
@@ -985,6 +1019,8 @@ impl<'a, 'r, 'o, 'd, 'i, 'c> Subject<'a, 'r, 'o, 'd, 'i, 'c> {
             self.pos += 1;
         } else {
             while self.peek_char() == Some(&c) {
+                #[cfg(comrak_verif)]
+                crate::verif::step();
                 numdelims += 1;
                 self.pos += 1;
             }
@@ -997,6 +1033,8 @@ impl<'a, 'r, 'o, 'd, 'i, 'c> Subject<'a, 'r, 'o, 'd, 'i, 'c> {
             while after_char_pos < self.input.len() - 1
                 && self.skip_chars[self.input[after_char_pos] as usize]
             {
+                #[cfg(comrak_verif)]
+                crate::verif::step();
                 after_char_pos += 1;
             }
             match unsafe { str::from_utf8_unchecked(&self.input[after_char_pos..]) }
@@ -1114,6 +1152,8 @@ impl<'a, 'r, 'o, 'd, 'i, 'c> Subject<'a, 'r, 'o, 'd, 'i, 'c> {
         // closer. None of them are matched pairs. They've been scanned already.
         let mut delim = closer.prev.get();
         while delim.is_some() && !Self::del_ref_eq(delim, Some(opener)) {
+            #[cfg(comrak_verif)]
+            crate::verif::step();
             self.remove_delimiter(delim.unwrap());
             delim = delim.unwrap().prev.get();
         }
@@ -1164,6 +1204,8 @@ impl<'a, 'r, 'o, 'd, 'i, 'c> Subject<'a, 'r, 'o, 'd, 'i, 'c> {
         // and then insert the emphasis node
         let mut tmp = opener.inl.next_sibling().unwrap();
         while !tmp.same_node(closer.inl) {
+            #[cfg(comrak_verif)]
+            crate::verif::step();
             let next = tmp.next_sibling();
             emph.append(tmp);
             if let Some(n) = next {
@@ -1308,6 +1350,8 @@ impl<'a, 'r, 'o, 'd, 'i, 'c> Subject<'a, 'r, 'o, 'd, 'i, 'c> {
         // "wa://…" will need to traverse two Texts to complete the rewind.
         let mut reverse = need_reverse;
         while reverse > 0 {
+            #[cfg(comrak_verif)]
+            crate::verif::step();
             let mut last_child = node.last_child().unwrap().data.borrow_mut();
             match last_child.value {
                 NodeValue::Text(ref mut prev) => {
@@ -1503,6 +1547,8 @@ impl<'a, 'r, 'o, 'd, 'i, 'c> Subject<'a, 'r, 'o, 'd, 'i, 'c> {
             let mut non_blank_found = false;
             let mut tmpch = self.brackets[brackets_len - 1].inl_text.next_sibling();
             while let Some(tmp) = tmpch {
+                #[cfg(comrak_verif)]
+                crate::verif::step();
                 match tmp.data.borrow().value {
                     NodeValue::Text(ref s) if is_blank(s.as_bytes()) => (),
                     _ => {
@@ -1643,6 +1689,8 @@ impl<'a, 'r, 'o, 'd, 'i, 'c> Subject<'a, 'r, 'o, 'd, 'i, 'c> {
             // Since we're handling the closing bracket, the only siblings at this point are
             // related to the footnote name.
             for sibling in sibling_iterator {
+                #[cfg(comrak_verif)]
+                crate::verif::step();
                 match sibling.data.borrow().value {
                     NodeValue::Text(ref literal) | NodeValue::HtmlInline(ref literal) => {
                         text.push_str(literal);
@@ -1673,6 +1721,8 @@ impl<'a, 'r, 'o, 'd, 'i, 'c> Subject<'a, 'r, 'o, 'd, 'i, 'c> {
                 // detach all the nodes, including bracket_inl_text
                 sibling_iterator = bracket_inl_text.following_siblings();
                 for sibling in sibling_iterator {
+                    #[cfg(comrak_verif)]
+                    crate::verif::step();
                     match sibling.data.borrow().value {
                         NodeValue::Text(_) | NodeValue::HtmlInline(_) => {
                             sibling.detach();
@@ -1722,6 +1772,8 @@ impl<'a, 'r, 'o, 'd, 'i, 'c> Subject<'a, 'r, 'o, 'd, 'i, 'c> {
         self.brackets[brackets_len - 1].inl_text.insert_before(inl);
         let mut tmpch = self.brackets[brackets_len - 1].inl_text.next_sibling();
         while let Some(tmp) = tmpch {
+            #[cfg(comrak_verif)]
+            crate::verif::step();
             tmpch = tmp.next_sibling();
             inl.append(tmp);
         }
@@ -1746,6 +1798,8 @@ impl<'a, 'r, 'o, 'd, 'i, 'c> Subject<'a, 'r, 'o, 'd, 'i, 'c> {
         let mut length = 0;
         let mut c = 0;
         while unwrap_into_copy(self.peek_char(), &mut c) && c != b'[' && c != b']' {
+            #[cfg(comrak_verif)]
+            crate::verif::step();
             if c == b'\\' {
                 self.pos += 1;
                 length += 1;
@@ -1871,6 +1925,8 @@ impl<'a, 'r, 'o, 'd, 'i, 'c> Subject<'a, 'r, 'o, 'd, 'i, 'c> {
         let mut length = 0;
         let mut c = 0;
         while unwrap_into_copy(self.peek_char(), &mut c) && c != b'[' && c != b']' && c != b'|' {
+            #[cfg(comrak_verif)]
+            crate::verif::step();
             if c == b'\\' {
                 self.pos += 1;
                 length += 1;
@@ -1904,6 +1960,8 @@ impl<'a, 'r, 'o, 'd, 'i, 'c> Subject<'a, 'r, 'o, 'd, 'i, 'c> {
         let len = label.len();
 
         while offset < len {
+            #[cfg(comrak_verif)]
+            crate::verif::step();
             let c = label[offset];
 
             if c == b'\\' && (offset + 1) < len && ispunct(label[offset + 1]) {
@@ -2017,6 +2075,8 @@ pub fn manual_scan_link_url(input: &[u8]) -> Option<(&[u8], usize)> {
     if i < len && input[i] == b'<' {
         i += 1;
         while i < len {
+            #[cfg(comrak_verif)]
+            crate::verif::step();
             let b = input[i];
             if b == b'>' {
                 i += 1;
@@ -2046,6 +2106,8 @@ pub fn manual_scan_link_url_2(input: &[u8]) -> Option<(&[u8], usize)> {
     let mut nb_p = 0;
 
     while i < len {
+        #[cfg(comrak_verif)]
+        crate::verif::step();
         if input[i] == b'\\' && i + 1 < len && ispunct(input[i + 1]) {
             i += 2;
         } else if input[i] == b'(' {
@@ -2100,6 +2162,8 @@ pub fn count_newlines(input: &[u8]) -> (usize, usize) {
     let mut since_nl = 0;
 
     for &c in input {
+        #[cfg(comrak_verif)]
+        crate::verif::step();
         if c == b'\n' {
             nls += 1;
             since_nl = 0;
